@@ -20,8 +20,8 @@ def run(rep):
                '9 fact shapes x 9 constant choices x 5 schedules: exhaustive for this family')
     fw.standin(rep, 's_c13.py', ['run', rep.seed, 0],
                'facts that differ only in their variable-sharing pattern are stored independently (either order, retract between); a '
-               'term holding a variable that is itself the product of a copy is asserted and the variable bound afterwards',
-               '4 skeletons x all pairs of sharing patterns x 4 assertion ways x 2 + 6 variable sources x 4 places x 3 ways: exhaustive')
+               'term holding a variable that is itself the product of a copy is asserted and the variable bound afterwards; a term mentioning a bound variable at any depth keeps the value of that moment',
+               '4 skeletons x all pairs of sharing patterns x 4 assertion ways x 2 + 6 variable sources x 4 places x 3 ways + 7 shapes x 3 values x 3 ways x direct/chained binding: exhaustive')
     rep.notes.append('assert_fact stores fresh_copy(values) = rename(resolve(values)); Answer.match unifies with a fresh copy per use; '
                      'L-RN-FRESH: every variable of a fresh copy is new (id >= allocation counter), so a stored fact shares no cell '
                      'with the caller and two uses share none with each other')
